@@ -60,20 +60,20 @@ PROPS = {
  'C05': dict(funcs=TCPT + ['ModbusClient.executeRequest'], consts=LEN_CONSTS),
  'C06': dict(funcs=CRC + RTUT + ['ModbusClient.executeRequest', 'uint16ToBytes', 'bytesToUint16'], consts=['maxRTUFrameLength'] + FC_CONSTS,
              tables=['expectedResponseLenth#responseCode'], crc=True),
- 'C07': dict(funcs=TCPT + RTUT + WRAP + ['ModbusClient.executeRequest'], consts=LEN_CONSTS),
- 'C08': dict(funcs=CLIENT_ALL + ['NewClient'], access='ModbusClient.'),
- 'C09': dict(funcs=SRV_LIFE + ['tcpTransport.ReadRequest'], access='ModbusServer.'),
- 'C10': dict(funcs=SRV_LIFE, access='ModbusServer.'),
+ 'C07': dict(funcs=CLIENT_HELPERS + TCPT + RTUT + WRAP + ['ModbusClient.executeRequest'], consts=LEN_CONSTS),
+ 'C08': dict(funcs=TCPT + RTUT + CLIENT_ALL + ['NewClient'], access='ModbusClient.'),
+ 'C09': dict(funcs=['ModbusServer.handleTransport', 'ModbusServer.startTLS'] + SRV_LIFE + ['tcpTransport.ReadRequest'], access='ModbusServer.'),
+ 'C10': dict(funcs=['ModbusServer.handleTransport'] + SRV_LIFE, access='ModbusServer.'),
  'C11': dict(funcs=SRV_LIFE + SRV_SESSION + TCPT, access='ModbusServer.'),
- 'C12': dict(funcs=['tcpTransport.readMBAPFrame', 'tcpTransport.readResponse', 'tcpTransport.ReadRequest', 'rtuTransport.readRTUFrame', 'udpSockWrapper.Read', 'newUDPSockWrapper', 'ModbusServer.handleTransport', 'discard'], consts=LEN_CONSTS),
- 'C13': dict(funcs=['tcpTransport.readMBAPFrame', 'tcpTransport.readResponse', 'tcpTransport.ReadRequest', 'rtuTransport.readRTUFrame', 'ModbusServer.handleTransport', 'ModbusServer.handleTCPClient', 'ModbusServer.acceptTCPClients', 'ModbusClient.Open', 'ModbusClient.Close', 'newTCPTransport', 'newRTUTransport'], consts=LEN_CONSTS),
- 'C14': dict(funcs=['ModbusClient.Open', 'NewClient', 'NewServer', 'ModbusServer.startTLS', 'ModbusServer.handleTCPClient'] + [k for k in fps if k.startswith('tlsSockWrapper.')] + ['newTLSSockWrapper'], tls=True),
- 'C15': dict(funcs=['ModbusServer.extractRole', 'ModbusServer.startTLS', 'ModbusServer.handleTCPClient', 'var.modbusRoleOID']),
+ 'C12': dict(funcs=WRAP + ['tcpTransport.ExecuteRequest', 'rtuTransport.ExecuteRequest'] + ['tcpTransport.readMBAPFrame', 'tcpTransport.readResponse', 'tcpTransport.ReadRequest', 'rtuTransport.readRTUFrame', 'udpSockWrapper.Read', 'newUDPSockWrapper', 'ModbusServer.handleTransport', 'discard'], consts=LEN_CONSTS),
+ 'C13': dict(funcs=TCPT + ['ModbusClient.Open', 'ModbusClient.Close', 'newRTUTransport', 'rtuTransport.ExecuteRequest'] + ['tcpTransport.readMBAPFrame', 'tcpTransport.readResponse', 'tcpTransport.ReadRequest', 'rtuTransport.readRTUFrame', 'ModbusServer.handleTransport', 'ModbusServer.handleTCPClient', 'ModbusServer.acceptTCPClients', 'ModbusClient.Open', 'ModbusClient.Close', 'newTCPTransport', 'newRTUTransport'], consts=LEN_CONSTS),
+ 'C14': dict(funcs=['ModbusServer.acceptTCPClients', 'ModbusServer.handleTransport'] + ['ModbusClient.Open', 'NewClient', 'NewServer', 'ModbusServer.startTLS', 'ModbusServer.handleTCPClient'] + [k for k in fps if k.startswith('tlsSockWrapper.')] + ['newTLSSockWrapper'], tls=True),
+ 'C15': dict(funcs=['ModbusServer.handleTransport'] + ['ModbusServer.extractRole', 'ModbusServer.startTLS', 'ModbusServer.handleTCPClient', 'var.modbusRoleOID']),
  'C16': dict(funcs=['NewClient', 'NewServer', 'ModbusClient.Open', 'ModbusClient.SetEncoding', 'newRTUTransport', 'serialPortWrapper.Open', 'newSerialPortWrapper', 'ModbusServer.Start'],
              consts=KIND_CONSTS + ENC_CONSTS + ['PARITY_NONE', 'PARITY_EVEN', 'PARITY_ODD'], tables=['NewClient#clientType', 'NewServer#serverType', 'ModbusClient.Open#mc.transportType']),
  'C17': dict(funcs=ENC, consts=ENC_CONSTS),
- 'C18': dict(funcs=CLIENT_PUBLIC + CLIENT_HELPERS + ENC + ['tcpTransport.assembleMBAPFrame', 'tcpTransport.readMBAPFrame', 'rtuTransport.assembleRTUFrame', 'rtuTransport.readRTUFrame']),
- 'C19': dict(funcs=['newRTUTransport', 'serialCharTime', 'rtuTransport.ExecuteRequest', 'rtuTransport.WriteResponse', 'discard']),
+ 'C18': dict(funcs=WRAP + ['tcpTransport.readResponse'] + CLIENT_PUBLIC + CLIENT_HELPERS + ENC + ['tcpTransport.assembleMBAPFrame', 'tcpTransport.readMBAPFrame', 'rtuTransport.assembleRTUFrame', 'rtuTransport.readRTUFrame']),
+ 'C19': dict(funcs=['rtuTransport.readRTUFrame'] + ['newRTUTransport', 'serialCharTime', 'rtuTransport.ExecuteRequest', 'rtuTransport.WriteResponse', 'discard']),
  'C20': dict(funcs=CLI + CLIENT_PUBLIC + CLIENT_HELPERS + ENC + ['NewClient', 'ModbusClient.SetEncoding', 'ModbusClient.SetUnitId'], consts=FC_CONSTS + ENC_CONSTS),
 }
 
